@@ -195,6 +195,9 @@ func (s *vfSession) coordinatedRestart(t *vfTopo, between int) ([]vfPendingSigna
 			return nil, err
 		}
 	}
+	if s.afterRegather != nil {
+		s.afterRegather()
+	}
 	if err := s.A.a.SetRemoteCredentials(s.B.ufrag, s.B.pwd); err != nil {
 		return nil, err
 	}
